@@ -75,9 +75,9 @@ PROBE_CALLS = [('f', (), {}), ('f', (1,), {}), ('f', (), {'x': 1}), ('g', (0,), 
 
 
 # ------------------------------------------------------------------ real classes
-TRACES = [
-    [[1, 3], [0, 3], [3, 1], [3, 0], [1, 1], [5, 3]],
-    [[3, 0], [3, 1], [0, 1], [5, 0], [5, 3], [1, 3]],
+TRACES = [  # contain a short visit to the outer shell of a site, so minimal_residence 0 and 3 give different jumps
+    [[1, 3], [0, 3], [4, 1], [0, 0], [5, 1], [5, 3]],
+    [[3, 0], [0, 1], [2, 1], [0, 0], [5, 3], [5, 3]],
 ]
 _PRE = {}
 
@@ -98,7 +98,7 @@ def prebuilt(variant):
     return _PRE[variant]
 
 
-def new_real(cls, variant):
+def new_real(cls, variant, slot=0, shared=None):
     from gemdat.jumps import Jumps
     from gemdat.metrics import TrajectoryMetrics
     from gemdat.transitions import Transitions
@@ -106,10 +106,31 @@ def new_real(cls, variant):
     traj, sites, events, states, inner, jd = prebuilt(variant)
     if cls == 'M':
         return TrajectoryMetrics(traj)
-    tr = Transitions(trajectory=traj, diff_trajectory=traj, sites=sites, events=events, states=states, inner_states=inner)
     if cls == 'T':
-        return tr
-    return Jumps(tr, conversion_method=lambda t, minimal_residence=0: jd.copy())
+        return Transitions(trajectory=traj, diff_trajectory=traj, sites=sites, events=events, states=states, inner_states=inner)
+    # Jumps: all objects of one variant are built over ONE shared Transitions (per replay) with the real
+    # conversion method; the slot decides minimal_residence (0 or 3), so two live, different Jumps can be
+    # "equal in everything but one argument"
+    if shared is None:
+        shared = {}
+    if variant not in shared:
+        shared[variant] = Transitions(trajectory=traj, diff_trajectory=traj, sites=sites, events=events, states=states, inner_states=inner)
+    shared[variant]._gvmc_variant = variant
+    return Jumps(shared[variant], conversion_method=fast_conversion, minimal_residence=0 if slot == 0 else 3)
+
+
+_JT = {}
+
+
+def fast_conversion(transitions, *, minimal_residence=0):
+    """ONE module-level conversion function (so objects do not differ by it): the real classifier's result,
+    computed once per (variant, minimal_residence) and copied afterwards."""
+    from gemdat.jumps import _generic_transitions_to_jumps
+
+    key = (transitions._gvmc_variant, minimal_residence)
+    if key not in _JT:
+        _JT[key] = _generic_transitions_to_jumps(transitions, minimal_residence=minimal_residence)
+    return _JT[key].copy()
 
 
 REAL_CALLS = {
@@ -168,6 +189,7 @@ class World:
         self.dropped_ids = set()
         self.id_reuse = 0
         self.dead_checks = 0
+        self.shared = {}
 
 
 def make_build(kind, nslots, cls=None):
@@ -194,7 +216,7 @@ def make_build(kind, nslots, cls=None):
             op = ev[0]
             if op == 'new':
                 _, s, v = ev
-                obj = probe_class()(('data', v)) if kind == 'probe' else new_real(cls, v)
+                obj = probe_class()(('data', v)) if kind == 'probe' else new_real(cls, v, s, w.shared)
                 if id(obj) in w.dropped_ids:
                     w.id_reuse += 1
                 w.slots[s], w.variant[s] = obj, v
@@ -238,7 +260,7 @@ def make_build(kind, nslots, cls=None):
             elif op == 'flood':
                 objs = []
                 for k in range(130):
-                    o = probe_class()(('flood', k)) if kind == 'probe' else new_real(cls, k % 2)
+                    o = probe_class()(('flood', k)) if kind == 'probe' else new_real(cls, k % 2, k % 2, {})
                     name, args, kwargs = (PROBE_CALLS if kind == 'probe' else REAL_CALLS[cls])[0]
                     getattr(type(o), name)(o, *args, **kwargs)
                     objs.append(weakref.ref(o))
